@@ -7,28 +7,35 @@ pub fn venc(v: &DbValue) -> Value {
     fn small(i: i128) -> bool {
         i.abs() < (1 << 30)
     }
+    // c = comparable content for the search oracle (numbers: [n]; short strings: bytes; small int vectors: elements)
     match v {
         DbValue::I64(i) => {
-            if small(*i as i128) { json!({"t": "i", "n": i, "s": ""}) } else { json!({"t": "i", "n": 0, "s": i.to_string()}) }
+            if small(*i as i128) { json!({"t": "i", "n": i, "s": "", "c": [i]}) } else { json!({"t": "i", "n": 0, "s": i.to_string(), "c": []}) }
         }
         DbValue::U64(u) => {
-            if small(*u as i128) { json!({"t": "u", "n": u, "s": ""}) } else { json!({"t": "u", "n": 0, "s": u.to_string()}) }
+            if small(*u as i128) { json!({"t": "u", "n": u, "s": "", "c": [u]}) } else { json!({"t": "u", "n": 0, "s": u.to_string(), "c": []}) }
         }
         DbValue::F64(f) => {
             let x = f.to_f64();
             let h = x * 2.0;
             if h.fract() == 0.0 && h.abs() < 1e9 && !(x == 0.0 && x.is_sign_negative()) {
-                json!({"t": "f", "n": h as i64, "s": ""})
+                json!({"t": "f", "n": h as i64, "s": "", "c": [h as i64]})
             } else {
-                json!({"t": "f", "n": 0, "s": format!("{:016x}", x.to_bits())})
+                json!({"t": "f", "n": 0, "s": format!("{:016x}", x.to_bits()), "c": []})
             }
         }
-        DbValue::String(s) => json!({"t": "s", "n": 0, "s": s}),
-        DbValue::Bytes(b) => json!({"t": "b", "n": b.len(), "s": vcore::hex(b)}),
-        DbValue::VecI64(x) => json!({"t": "vi", "n": x.len(), "s": format!("{x:?}")}),
-        DbValue::VecU64(x) => json!({"t": "vu", "n": x.len(), "s": format!("{x:?}")}),
-        DbValue::VecF64(x) => json!({"t": "vf", "n": x.len(), "s": x.iter().map(|f| format!("{:016x}", f.to_f64().to_bits())).collect::<Vec<_>>().join(",")}),
-        DbValue::VecString(x) => json!({"t": "vs", "n": x.len(), "s": format!("{x:?}")}),
+        DbValue::String(s) => {
+            let c: Vec<u8> = if s.len() <= 12 { s.as_bytes().to_vec() } else { vec![] };
+            json!({"t": "s", "n": 0, "s": s, "c": c})
+        }
+        DbValue::Bytes(b) => json!({"t": "b", "n": b.len(), "s": vcore::hex(b), "c": []}),
+        DbValue::VecI64(x) => {
+            let c: Vec<i64> = if x.len() <= 8 && x.iter().all(|i| small(*i as i128)) { x.clone() } else { vec![] };
+            json!({"t": "vi", "n": x.len(), "s": format!("{x:?}"), "c": c})
+        }
+        DbValue::VecU64(x) => json!({"t": "vu", "n": x.len(), "s": format!("{x:?}"), "c": []}),
+        DbValue::VecF64(x) => json!({"t": "vf", "n": x.len(), "s": x.iter().map(|f| format!("{:016x}", f.to_f64().to_bits())).collect::<Vec<_>>().join(","), "c": []}),
+        DbValue::VecString(x) => json!({"t": "vs", "n": x.len(), "s": format!("{x:?}"), "c": []}),
     }
 }
 
